@@ -43,11 +43,26 @@ pub fn check_deadline_wakeups(rep: &mut CaseReport, property: &'static str, even
     // uid -> (timer, deadline, armed at)
     let mut pending: BTreeMap<u64, Vec<(Timer, Us, Us)>> = BTreeMap::new();
     let lc = property.to_lowercase();
-    let judge = |rep: &mut CaseReport, uid: u64, t: Us, pending: &mut BTreeMap<u64, Vec<(Timer, Us, Us)>>, what: &str| {
+    let mut locals: BTreeMap<u64, std::net::SocketAddr> = BTreeMap::new();
+    for e in events {
+        if let Ev::Hook(V::PollEnd { id, .. }) = &e.ev {
+            locals.entry(id.uid).or_insert(id.local);
+        }
+    }
+    let mut blocked_cache: BTreeMap<std::net::SocketAddr, Vec<(Us, Us)>> = BTreeMap::new();
+    let mut judge = |rep: &mut CaseReport, uid: u64, t: Us, pending: &mut BTreeMap<u64, Vec<(Timer, Us, Us)>>, what: &str| {
         if let Some(v) = pending.remove(&uid) {
             for (timer, d, armed_at) in v {
                 rep.counters.inc(&format!("{lc}_armed_deadlines_checked_for_a_wakeup"));
-                if t > d + 2 * MS {
+                // with the transport refusing datagrams the task waits for it, not for the timer
+                let d_eff = match locals.get(&uid) {
+                    Some(addr) => {
+                        let b = blocked_cache.entry(*addr).or_insert_with(|| crate::mon::diag::blocked_intervals(events, *addr));
+                        crate::mon::diag::unblocked_at(b, d)
+                    }
+                    None => d,
+                };
+                if t > d_eff + 2 * MS {
                     rep.violate(
                         property,
                         "slept-through-deadline",
